@@ -465,21 +465,33 @@ impl VersionManager {
 
         let start_time = Instant::now();
 
-        // For OneWriteMultiRead, ensure no other writers are active
-        if self.concurrency_level == ConcurrencyLevel::OneWriteMultiRead {
-            let current_writers = self.active_writers.load(Ordering::Acquire);
-            if current_writers > 0 {
-                return Err(ZiporaError::resource_busy(
-                    "Another writer is already active in OneWriteMultiRead mode",
-                ));
-            }
+        // For OneWriteMultiRead, claim the single writer slot atomically: a separate
+        // check followed by a later increment lets two threads both pass the check.
+        let slot_claimed = self.concurrency_level == ConcurrencyLevel::OneWriteMultiRead;
+        if slot_claimed
+            && self
+                .active_writers
+                .compare_exchange(0, 1, Ordering::AcqRel, Ordering::Acquire)
+                .is_err()
+        {
+            return Err(ZiporaError::resource_busy(
+                "Another writer is already active in OneWriteMultiRead mode",
+            ));
         }
 
         // Acquire version under lock for synchronized levels
         let (version, min_version) = if self.concurrency_level.requires_synchronization() {
-            let _lock = self.token_chain_mutex.lock().map_err(|_| {
-                ZiporaError::system_error("Failed to acquire token chain mutex for writer")
-            })?;
+            let _lock = match self.token_chain_mutex.lock() {
+                Ok(lock) => lock,
+                Err(_) => {
+                    if slot_claimed {
+                        self.active_writers.fetch_sub(1, Ordering::Release);
+                    }
+                    return Err(ZiporaError::system_error(
+                        "Failed to acquire token chain mutex for writer",
+                    ));
+                }
+            };
 
             let current_min = self.min_version.load(Ordering::Acquire);
             let version = self.current_version.fetch_add(1, Ordering::AcqRel) + 1;
@@ -489,8 +501,10 @@ impl VersionManager {
             (1, 1)
         };
 
-        // Increment active writer count
-        self.active_writers.fetch_add(1, Ordering::Relaxed);
+        // Increment active writer count (already counted when the slot was claimed)
+        if !slot_claimed {
+            self.active_writers.fetch_add(1, Ordering::Relaxed);
+        }
 
         // Update statistics
         if let Ok(mut stats) = self.stats.lock() {
